@@ -506,7 +506,19 @@ class Gen:
         rng = self.rng
         k = rng.choice((0, 1, 2, 3)) if depth < self.max_depth else rng.choice((1, 2))
         self.feat("listlit:%d" % k)
-        return N("listlit", SLIST, ([self.expr(STR, depth + 1) for _ in range(k)],))
+        elems = [self.expr(STR, depth + 1) for _ in range(k)]
+        if self.profile == "constant":
+            # a constant string list is embedded as ONE <stringlist> that is translatable or not as a whole: qmluic rejects
+            # a mix of bare and qsTr() elements by design ("cannot mix bare and translatable strings")
+            def has_tr(n):
+                if n.k == "tr":
+                    return True
+                return any(has_tr(c) for c in (n.a or ()) if isinstance(c, N)) or \
+                    any(has_tr(c) for x in (n.a or ()) if isinstance(x, (list, tuple)) for c in x if isinstance(c, N))
+            flags = [has_tr(e) for e in elems]
+            if any(flags) and not all(flags):
+                elems = [self.lit(STR) if f else e for e, f in zip(elems, flags)]
+        return N("listlit", SLIST, (elems,))
 
     def p_subscript(self, t, depth):
         l = self.expr(SLIST, depth + 1)
